@@ -513,7 +513,14 @@ class Reader:
                         self.tok.get_eol()
                     elif c == "$ORIGIN":
                         # a relative name is relative to the current origin (RFC 1035 5.1)
-                        self.current_origin = self.tok.get_name(self.current_origin)
+                        new_origin = self.tok.get_name(self.current_origin)
+                        if not new_origin.is_absolute():
+                            # no origin is known yet, so there is nothing a
+                            # relative name could be relative to
+                            raise dns.exception.SyntaxError(
+                                "relative $ORIGIN and no origin to complete it with"
+                            )
+                        self.current_origin = new_origin
                         self.tok.get_eol()
                         if self.zone_origin is None:
                             self.zone_origin = self.current_origin
